@@ -112,10 +112,12 @@ func (v *collator_[V]) GetMaximum() int {
 // Public
 
 func (v *collator_[V]) CompareValues(first V, second V) bool {
+	v.depth_ = 0 // A previous call may have ended in a panic.
 	return v.compareValues(ref.ValueOf(first), ref.ValueOf(second))
 }
 
 func (v *collator_[V]) RankValues(first V, second V) Rank {
+	v.depth_ = 0 // A previous call may have ended in a panic.
 	return v.rankValues(ref.ValueOf(first), ref.ValueOf(second))
 }
 
